@@ -198,3 +198,73 @@ def _block_of(stmt):
         if isinstance(b, list) and stmt in b:
             return b
     return [stmt]
+
+
+def rule_cl_mode(cx, rep, port='py'):
+    """interactive mode is chosen exactly when no --query was given (presence test, not truthiness)"""
+    p = cx.py
+    for entry in ('csv_main', 'sqlite_main'):
+        m = p.func('rbql_main', entry)
+        defs = [n for n in walk_no_nested(m) if isinstance(n, ast.Assign) and is_name(n.targets[0], 'is_interactive_mode')]
+        if len(defs) != 1:
+            rep.undecided(entry + ' mode', m, 'definition of is_interactive_mode not found')
+            continue
+        v = defs[0].value
+        ok = isinstance(v, ast.Compare) and isinstance(v.ops[0], ast.Is) and is_none(v.comparators[0]) and dotted(v.left) == 'args.query'
+        if ok:
+            rep.holds(entry + ' mode', defs[0], 'interactive iff args.query is None')
+        elif 'args.query' in node_text(v) and not isinstance(v, ast.Compare):
+            rep.violated(entry + ' mode', defs[0], 'interactive mode is chosen by the truthiness of --query (`{}`): an empty query string starts the interactive preview (stdout output, exit 0) instead of failing with an `Error [...]` line and a non-zero status'.format(node_text(v)))
+        else:
+            rep.undecided(entry + ' mode', defs[0], 'mode selection `{}` not recognised'.format(node_text(v)))
+
+
+def rule_if_args(cx, rep, port='py'):
+    """entry points route each parameter to the component it is meant for: output delimiter/policy to the writer, input
+    delimiter/policy to the reader and the join registry; every parameter is used"""
+    p = cx.py
+    specs = [('rbql_csv', 'query_csv'), ('rbql_sqlite', 'query_sqlite_to_csv'), ('rbql_engine', 'query_table'), ('rbql_pandas', 'query_dataframe')]
+    for mod, fn in specs:
+        fd = p.func(mod, fn)
+        params = [a.arg for a in fd.args.args]
+        used = names_in(ast.Module(body=fd.body, type_ignores=[]))
+        unused = [x for x in params if x not in used]
+        rep.decide(not unused, '{}.{} parameters'.format(mod, fn), fd, 'every parameter is used', 'parameter(s) {} of {} are never used: the caller\'s setting is silently replaced by something else'.format(unused, fn))
+        for c in walk_no_nested(fd):
+            if not isinstance(c, ast.Call):
+                continue
+            nm = (call_name(c) or '').split('.')[-1]
+            if nm == 'CSVWriter' and len(c.args) >= 5:
+                d, pol = dotted(c.args[3]) or '', dotted(c.args[4]) or ''
+                ok = 'output' in d and 'delim' in d and 'output' in pol and 'policy' in pol
+                rep.decide(ok, '{}.{} writer dialect'.format(mod, fn), c, 'the writer gets the output delimiter and output policy', 'the output writer is built with delimiter `{}` and policy `{}` instead of the output dialect: converting between formats quotes fields by the wrong rules'.format(d, pol))
+            if nm == 'CSVRecordIterator' and len(c.args) >= 4 and fn == 'query_csv':
+                d, pol = dotted(c.args[2]) or '', dotted(c.args[3]) or ''
+                ok = d == 'input_delim' and pol == 'input_policy'
+                rep.decide(ok, '{}.{} reader dialect'.format(mod, fn), c, 'the reader gets the input delimiter and input policy', 'the input reader is built with `{}`/`{}` instead of the input dialect'.format(d, pol))
+            if nm == 'FileSystemCSVRegistry' and len(c.args) >= 3:
+                d, pol = dotted(c.args[1]) or '', dotted(c.args[2]) or ''
+                rep.decide(d == 'input_delim' and pol == 'input_policy', '{}.{} join dialect'.format(mod, fn), c, 'join tables are read with the input dialect', 'join tables are read with `{}`/`{}` instead of the input dialect'.format(d, pol))
+
+
+def rule_if_df(cx, rep, port='py'):
+    """the dataframe writer hands the header to the result unconditionally"""
+    p = cx.py
+    fin = p.func('rbql_pandas', 'DataframeWriter.finish')
+    calls = [c for c in walk_no_nested(fin) if isinstance(c, ast.Call) and (dotted(c.func) or '').endswith('DataFrame')]
+    if len(calls) != 1:
+        rep.undecided('DataframeWriter.finish', fin, 'DataFrame construction not found')
+        return
+    kw = {k.arg: k.value for k in calls[0].keywords}
+    ok = 'columns' in kw and dotted(kw['columns']) == 'self.header' and calls[0].args and dotted(calls[0].args[0]) == 'self.output_rows'
+    if ok:
+        rep.holds('DataframeWriter.finish', calls[0], 'DataFrame(output_rows, columns=header)')
+    else:
+        cond = [n for n in walk_no_nested(fin) if isinstance(n, ast.If) and 'header' in node_text(n.test)]
+        if cond:
+            rep.violated('DataframeWriter.finish', cond[0], 'the header is attached to the result only under `{}`: an empty result loses its column names although the other front-ends still return the header'.format(node_text(cond[0].test, 100)))
+        else:
+            rep.violated('DataframeWriter.finish', calls[0], 'the result frame is not built as DataFrame(output_rows, columns=header)')
+    wr = p.func('rbql_pandas', 'DataframeWriter.write')
+    ok = any(isinstance(c, ast.Call) and isinstance(c.func, ast.Attribute) and c.func.attr == 'append' and dotted(c.func.value) == 'self.output_rows' for c in walk_no_nested(wr))
+    rep.decide(ok, 'DataframeWriter.write', wr, 'every record is appended to output_rows', 'records are not all appended to output_rows')
